@@ -234,3 +234,61 @@ theorem step_err (env : Env) (s : St) (b : UInt8) (c : Code) (a : Adj)
     · simp at h; obtain ⟨rfl, rfl⟩ := h; exact ⟨rfl, rfl⟩
 
 end SJ.Proofs.Machine
+
+namespace SJ.Proofs.Machine
+open SJ SJ.Gen SJ.Model.Machine
+
+/-! ### the one non-`Eof` failure of `finish`, exactly (C10) -/
+
+/-- if ending the number fails, it is the conversion that fails -/
+theorem endNumber_err_numValue (env : Env) (henv : env.tgt = .value) (s : St) (n : NumSt) (c : Code) (a : Adj)
+    (h : endNumber env s n = .error (c, a)) : numValue env n = .error .NumberOutOfRange := by
+  unfold endNumber at h
+  rw [if_pos henv] at h
+  cases hn : numValue env n with
+  | ok v => rw [hn] at h; cases h
+  | error c' => rw [numValue_err env n c' hn]
+
+/-- **At end of input, exactly:** the value parser fails with an `Eof`-classified error, or with
+    `NumberOutOfRange` — and the latter only in a number state whose literal is complete (phase `zero`,
+    `int`, `frac` or `exp`) and whose conversion `numValue` fails. -/
+theorem finish_err_value_exact (env : Env) (henv : env.tgt = .value) (s : St) (c : Code)
+    (h : finish env s = .error c) :
+    classify c = .eof ∨ (c = .NumberOutOfRange ∧ ∃ n, s.mode = .num n ∧
+      (n.phase = .zero ∨ n.phase = .int ∨ n.phase = .frac ∨ n.phase = .exp) ∧
+      numValue env n = .error .NumberOutOfRange) := by
+  rcases finish_eof_clean_value env henv s c h with hc | hc
+  · exact .inl hc
+  · right
+    refine ⟨hc, ?_⟩
+    subst hc
+    unfold finish at h
+    split at h
+    · rename_i n hmode
+      refine ⟨n, hmode, ?_⟩
+      cases hp : n.phase <;> simp only [hp] at h <;> try (cases h; done)
+      all_goals
+        (split at h
+         · rename_i s' hs'
+           obtain ⟨v, hv⟩ := endNumber_ok env s n s' hs'
+           subst hv
+           have := finishMode_complete env _ _ _ h
+           cases this
+         · rename_i c' a hc
+           refine ⟨by simp, endNumber_err_numValue env henv s n c' a hc⟩)
+    · exfalso
+      unfold finishMode at h
+      split at h <;> simp [henv] at h
+
+/-- conversely, such a state does fail with `NumberOutOfRange` at end of input -/
+theorem finish_number_out_of_range (env : Env) (henv : env.tgt = .value) (s : St) (n : NumSt)
+    (hmode : s.mode = .num n)
+    (hphase : n.phase = .zero ∨ n.phase = .int ∨ n.phase = .frac ∨ n.phase = .exp)
+    (hnum : numValue env n = .error .NumberOutOfRange) : finish env s = .error .NumberOutOfRange := by
+  unfold finish
+  rw [hmode]
+  have he : endNumber env s n = .error (.NumberOutOfRange, .incl) := by
+    unfold endNumber; rw [if_pos henv, hnum]
+  rcases hphase with hp | hp | hp | hp <;> simp only [hp, he]
+
+end SJ.Proofs.Machine
